@@ -15,7 +15,7 @@ func tokK(k sb.Kind) sb.Token {
 }
 
 // a registered type with Binary marshalling round-trips at every position (Go oracle; not in the model's universe)
-func typedRegisteredMarshaler(repU *Report) {
+func typedRegisteredMarshaler(repM, repU *Report) {
 	type holder struct {
 		S  Stamp
 		P  *Stamp
@@ -24,6 +24,8 @@ func typedRegisteredMarshaler(repU *Report) {
 		A  any
 		PN *Stamp
 	}
+	// (an interface position holding a Stamp comes back as the string it marshals to: equivalent by
+	// the canonical stream of interface positions, which is what equivValues compares)
 	v := holder{S: Stamp{1}, P: &Stamp{2}, L: []Stamp{{3}, {4}}, M: map[string]Stamp{"k": {5}}, A: Stamp{6}}
 	ts, err := marshalTokens(v, nil)
 	repU.Evaluations++
@@ -32,9 +34,27 @@ func typedRegisteredMarshaler(repU *Report) {
 		repU.violate("C01", "marshal-error", fmt.Sprintf("%v", err), desc)
 		return
 	}
+	// C08: the stream of a registered marshaler type does not depend on the level of indirection
+	{
+		x := Stamp{6}
+		px := &x
+		var ax any = x
+		var apx any = &x
+		direct, _ := marshalTokens(x, nil)
+		for _, w := range []any{&x, &px, &ax, &apx, []any{x}, []*Stamp{&x}} {
+			got, e := marshalTokens(w, nil)
+			repM.Evaluations++
+			if rv := reflect.ValueOf(w); rv.Kind() == reflect.Slice && len(got) >= 2 {
+				got = got[1 : len(got)-1]
+			}
+			if e != nil || !tokensExactEq(direct, got) {
+				repM.violate("C08", "indirection-changes-stream", fmt.Sprintf("a registered type with MarshalBinary marshals to %s directly and to %s as %T", descTokens(direct), descTokens(got), w), "registered binary marshaler Stamp{6}")
+			}
+		}
+	}
 	var back holder
 	e := guard(func() error { return copyBudget(tokensFrom(ts), sb.Unmarshal(&back)) })
-	if e != nil || !reflect.DeepEqual(v, back) {
+	if e != nil || !equivValues(reflect.ValueOf(v), reflect.ValueOf(back)) {
 		repU.violate("C01", "roundtrip-error", fmt.Sprintf("a registered type with MarshalBinary does not round-trip: %v, got %+v", e, back), desc)
 	}
 }
